@@ -463,8 +463,16 @@ func (w *World) Args(sc *Scenario) ([]argmapper.Arg, error) {
 	if joinAt >= 0 {
 		args[joinAt] = argmapper.Typed(joined...)
 	}
+	var raw []interface{}
 	for i := range sc.Convs {
 		fs := &sc.Convs[i]
+		if sc.RawConverters && !fs.Built && !fs.Once {
+			w.mu.Lock()
+			w.Specs[fs.ID] = fs
+			w.mu.Unlock()
+			raw = append(raw, w.MakeGoFunc(fs))
+			continue
+		}
 		w.mu.Lock()
 		f := w.Funcs[fs.ID]
 		w.mu.Unlock()
@@ -476,6 +484,9 @@ func (w *World) Args(sc *Scenario) ([]argmapper.Arg, error) {
 			}
 		}
 		args = append(args, argmapper.ConverterFunc(f))
+	}
+	if len(raw) > 0 {
+		args = append(args, argmapper.Converter(raw...))
 	}
 	for i := range sc.Gens {
 		args = append(args, argmapper.ConverterGen(w.MakeGen(&sc.Gens[i])))
